@@ -84,11 +84,11 @@ theorem splitLeafInsert_shape (p : Params K) (pv : p.Valid)
     · rw [if_pos hge] at hr
       cases hr
       refine ⟨_, _, rfl, ?_, ?_⟩ <;>
-        simp only [Shape, Params.leafMin, length_insertAt, List.length_take, List.length_drop] <;> omega
+        simp only [Shape, Params.leafMin, Gen.leafSlotmin, length_insertAt, List.length_take, List.length_drop] <;> omega
     · rw [if_neg hge] at hr
       cases hr
       refine ⟨_, _, rfl, ?_, ?_⟩ <;>
-        simp only [Shape, Params.leafMin, length_insertAt, List.length_take, List.length_drop] <;> omega
+        simp only [Shape, Params.leafMin, Gen.leafSlotmin, length_insertAt, List.length_take, List.length_drop] <;> omega
 
 theorem leafInsert_shape (p : Params K) (pv : p.Valid) (ml : Nat) (_hml : ml ≤ p.leafMin)
     (mi : Nat) (es : List (K × V)) (k : K) (v : V) (hs : ShapeTop (V := V) p ml mi 0 (.leaf es)) (r : InsOut K V)
@@ -155,13 +155,13 @@ theorem splitInnerAbsorb_shape (p : Params K) (pv : p.Valid) (h l : Nat) (keys :
         have hrest : ∀ c ∈ rest, c ∈ kids := fun c hc =>
           List.mem_of_mem_drop (by rw [hrk]; exact List.mem_cons_of_mem _ hc)
         refine ⟨_, _, rfl, ?_, ?_, rfl⟩
-        · simp only [Shape, Params.innerMin, List.length_append, List.length_take, List.length_cons, List.length_nil]
+        · simp only [Shape, Params.innerMin, Gen.innerSlotmin, List.length_append, List.length_take, List.length_cons, List.length_nil]
           refine ⟨hl, by omega, by omega, by omega, ?_⟩
           intro c hc
           rcases List.mem_append.mp hc with hc | hc
           · exact hkids c (List.mem_of_mem_take hc)
           · simp only [List.mem_singleton] at hc; subst hc; exact hkids _ hc0
-        · simp only [Shape, Params.innerMin, List.length_drop, List.length_cons]
+        · simp only [Shape, Params.innerMin, Gen.innerSlotmin, List.length_drop, List.length_cons]
           refine ⟨hl, by omega, by omega, by omega, ?_⟩
           intro c hc
           rcases List.mem_cons.mp hc with hc | hc
@@ -173,11 +173,11 @@ theorem splitInnerAbsorb_shape (p : Params K) (pv : p.Valid) (h l : Nat) (keys :
       · rw [if_pos hge] at hr
         cases hr
         refine ⟨_, _, rfl, ?_, ?_, rfl⟩
-        · simp only [Shape, Params.innerMin, List.length_take]
+        · simp only [Shape, Params.innerMin, Gen.innerSlotmin, List.length_take]
           refine ⟨hl, by omega, by omega, by omega, ?_⟩
           intro c hc
           exact hkids c (List.mem_of_mem_take hc)
-        · simp only [Shape, Params.innerMin, length_insertAt, List.length_drop]
+        · simp only [Shape, Params.innerMin, Gen.innerSlotmin, length_insertAt, List.length_drop]
           refine ⟨hl, by omega, by omega, by omega, ?_⟩
           intro c hc
           rcases mem_insertAt hc with hc | hc
@@ -186,13 +186,13 @@ theorem splitInnerAbsorb_shape (p : Params K) (pv : p.Valid) (h l : Nat) (keys :
       · rw [if_neg hge] at hr
         cases hr
         refine ⟨_, _, rfl, ?_, ?_, rfl⟩
-        · simp only [Shape, Params.innerMin, length_insertAt, List.length_take]
+        · simp only [Shape, Params.innerMin, Gen.innerSlotmin, length_insertAt, List.length_take]
           refine ⟨hl, by omega, by omega, by omega, ?_⟩
           intro c hc
           rcases mem_insertAt hc with hc | hc
           · subst hc; exact hnc
           · exact hkids c (List.mem_of_mem_take hc)
-        · simp only [Shape, Params.innerMin, List.length_drop]
+        · simp only [Shape, Params.innerMin, Gen.innerSlotmin, List.length_drop]
           refine ⟨hl, by omega, by omega, by omega, ?_⟩
           intro c hc
           exact hkids c (List.mem_of_mem_drop hc)
